@@ -106,7 +106,7 @@ reg('C19',
     deadline={'quick': 400, 'thorough': 1500},
     level=MC,
     technique='bounded-exhaustive enumeration of all expression bodies up to length L x index x capacity on the real expression API (ASan), compared with a reference list grammar',
-    rule={'quick': 'every expression body of length <= 6 over {1 2 - . : , ! @ blank A E +} between parentheses, queried at every index 0..9 (0..4 for length 6) through the three numeric-list entry functions and through the channel-list function with every capacity 0..4 (exact-size heap value arrays) and with capacity 0 announced with NULL arrays, plus generated lists of 1..8 entries x 1..5 dimensions with every range placement and lists of long numbers with signed exponents and blanks at the exponent mark; non-trivial = body that is a well-formed numeric or channel list',
+    rule={'quick': 'every expression body of length <= 6 over {1 2 0 - . : , ! @ blank A E +} between parentheses, queried at every index 0..9 (0..4 for length 6) through the three numeric-list entry functions and through the channel-list function with every capacity 0..4 (exact-size heap value arrays) and with capacity 0 announced with NULL arrays, plus generated lists of 1..8 entries x 1..5 dimensions with every range placement and lists of long numbers with signed exponents and blanks at the exponent mark; non-trivial = body that is a well-formed numeric or channel list',
           'thorough': 'as quick with bodies of length <= 7'},
     assumptions=['lazy validation is accepted: entry i may be reported OK when the body starts with i+1 well-formed comma-separated entries, whatever follows',
                  'for a malformed numeric list both NO_MORE and ERROR are accepted where OK is not allowed; for a malformed channel list only ERROR with -170',
